@@ -51,6 +51,14 @@ func IMMSites() []Site {
 		{Tag: "T2 incdec x2.M++", Stmt: "x2.M++", Subj: SubjT2, Codes: i3},
 		{Tag: "T2 mut assign x2.F", Stmt: "x2.F = 1", Subj: SubjT2Mut, Codes: i1, Core: true},
 		{Tag: "T2 mut compound x2.F+=", Stmt: "x2.F += 1", Subj: SubjT2Mut, Codes: i2},
+		// T's fields written through promotion (w.F is w.T.F: the same field of the same immutable value)
+		{Tag: "promoted assign wt.F", Stmt: "wt.F = 1", Subj: SubjT, Codes: i1, Core: true},
+		{Tag: "promoted explicit wt.T.F", Stmt: "wt.T.F = 1", Subj: SubjT, Codes: i1},
+		{Tag: "promoted incdec wpt.F++", Stmt: "wpt.F++", Subj: SubjT, Codes: i3},
+		{Tag: "promoted compound wpt.F+=", Stmt: "wpt.F += 1", Subj: SubjT, Codes: i2},
+		{Tag: "promoted index wt.Xs[0]", Stmt: "wt.Xs[0] = 1", Subj: SubjT, Codes: i4},
+		{Tag: "promoted mut wt.M", Stmt: "wt.M = 1", Subj: SubjTMut, Codes: i1},
+		{Tag: "twin promoted wtw.F", Stmt: "wtw.F = 1; wtw.Xs[0] = 1; wtw.M++", Subj: SubjTwin},
 		// the generic annotated type GT[V] (instantiated as GT[int])
 		{Tag: "generic assign gx.F", Stmt: "gx.F = 1", Subj: SubjT2, Codes: i1, Core: true},
 		{Tag: "generic compound gp.F+=", Stmt: "gp.F += 1", Subj: SubjT2, Codes: i2},
